@@ -255,7 +255,32 @@ def id_kinds(rep, prog):
                         rep.ok("C08.id-kinds", prog, fn, n, "%s = %s" % (l["ref"]["name"], a))
 
 
-def _is_renumber_loop(n, lst_key, partial_ok=None):
+def _is_renumber_loop(n, lst_key, partial_ok=None, fn=None):
+    if n.get("k") == "CXXForRangeStmt" and fn is not None and e1.handle_key(n["range"]) == lst_key:
+        # for(c : list) c->set_local_id(k++);   with k = 0 declared in front of the loop and touched nowhere else
+        body = n["body"].get("c", []) if n["body"].get("k") == "CompoundStmt" else [n["body"]]
+        for st_ in body:
+            x = strip(st_)
+            if x.get("k") == "CXXMemberCallExpr" and x.get("callee") == "cell::set_local_id":
+                h = e1.peel_handle(call_obj(x))
+                a = strip(call_args(x)[0])
+                cdid = None
+                if a.get("k") == "UnaryOperator" and a.get("op") in ("post++", "++") and not a.get("prefix", False) and strip(a["c"][0]).get("k") == "DeclRefExpr":
+                    cdid = strip(a["c"][0])["ref"]["did"]
+                    extra_inc = 0
+                elif a.get("k") == "DeclRefExpr":
+                    cdid = a["ref"]["did"]
+                    extra_inc = 1
+                if cdid is None or not (h.get("k") == "DeclRefExpr" and h["ref"]["did"] == n["var"]["did"]):
+                    continue
+                decl = [v for v in walk(fn["body"]) if v.get("k") == "Var" and v.get("did") == cdid and isinstance(v.get("init"), dict)]
+                zero = bool(decl) and strip(decl[0]["init"]).get("k") == "IntegerLiteral" and strip(decl[0]["init"]).get("v") == "0"
+                writes = [w for w in walk(fn["body"]) if (w.get("k") == "UnaryOperator" and ("++" in w.get("op", "") or "--" in w.get("op", "")) or w.get("k") == "CompoundAssignOperator" or (w.get("k") == "BinaryOperator" and w.get("op") == "="))
+                          and strip(w["c"][0]).get("k") == "DeclRefExpr" and strip(w["c"][0])["ref"].get("did") == cdid]
+                in_loop = [w for w in writes if any(y is w for y in walk(n["body"]))]
+                if zero and len(writes) == 1 and len(in_loop) == 1 and "++" in in_loop[0].get("op", "") and not any(c_.get("k") in ("ContinueStmt", "IfStmt") for c_ in walk(n["body"])):
+                    return True
+        return False
     if n.get("k") != "ForStmt":
         return False
     for x in walk(n["body"]):
@@ -296,9 +321,9 @@ def renumber(rep, prog, rule="C08.renumber-after-resize", only=None):
                 changes.append(n)
             if n.get("k") == "CallExpr" and n.get("callee") == "remove_index" and e1.handle_key(call_args(n)[0]) == lst_key:
                 changes.append(n)
-        loops = [n for n in walk(fn["body"]) if _is_renumber_loop(n, lst_key) is True]
+        loops = [n for n in walk(fn["body"]) if _is_renumber_loop(n, lst_key, fn=fn) is True]
         for n in walk(fn["body"]):
-            if _is_renumber_loop(n, lst_key) == "partial":
+            if _is_renumber_loop(n, lst_key, fn=fn) == "partial":
                 rep.violation(rule, prog, fn, n, "renumbering does not start at the head of the list",
                               "%s: the loop 'list[i]->set_local_id(i)' starts at %s instead of 0: the cells in front of that position keep the local ids they had before the population changed "
                               "(the removal list is filled in completion order of the threads, its first element need not be the smallest index), so a cell's local id no longer equals its place in the list"
@@ -307,7 +332,7 @@ def renumber(rep, prog, rule="C08.renumber-after-resize", only=None):
             raise AnalysisBroken("%s: no population change found" % qn)
         loop_units = set()
         for l in loops:
-            for x in list(walk(l["body"])) + list(walk(l["cond"])):     # a zero-trip renumbering loop is fine (empty list)
+            for x in list(walk(l["body"])) + list(walk(l.get("cond") or l.get("range") or {})):     # a zero-trip renumbering loop is fine (empty list)
                 u = cfg.unit_of.get(id(x))
                 if u is not None:
                     loop_units.add(u)
@@ -499,32 +524,73 @@ def face_type_range(rep, prog):
     # validated minimum per global_type_id_: 'if(ctp->global_type_id_ == T && ctp->face_types_.size() < K) throw'
     validated = {}
     generic_min = 0
-    for n in walk(init["body"]):
-        if n.get("k") == "IfStmt" and always_exits(n["then"]) and any(x.get("k") == "CXXThrowExpr" for x in walk(n["then"])):
-            c = n["cond"]
-            tids = [int(strip(x["c"][1])["v"]) for x in walk(c) if x.get("k") == "BinaryOperator" and x.get("op") == "==" and "global_type_id_" in render(x["c"][0]) and strip(x["c"][1]).get("k") == "IntegerLiteral"]
-            mins = []
-            for x in walk(c):
-                if x.get("k") == "BinaryOperator" and x.get("op") == "<" and "face_types_" in render(x["c"][0]) and "size" in render(x["c"][0]):
-                    r = strip(x["c"][1])
-                    v = None
-                    if r.get("k") == "IntegerLiteral":
-                        v = int(r["v"])
-                    elif r.get("k") == "DeclRefExpr":
-                        for d in walk(init["body"]):
-                            if d.get("k") == "Var" and d.get("did") == r["ref"]["did"] and isinstance(d.get("init"), dict):
-                                lit = [y for y in walk(d["init"]) if y.get("k") == "IntegerLiteral"]
-                                if lit:
-                                    v = int(lit[0]["v"])
-                    if v is not None:
-                        mins.append(v)
-            for t in tids:
-                for m in mins:
-                    validated[t] = max(validated.get(t, 0), m)
-        if n.get("k") == "LambdaExpr":
-            for x in walk(n["body"]):
-                if x.get("k") == "BinaryOperator" and x.get("op") == ">" and "face_types_" in render(x["c"][0]) and strip(x["c"][1]).get("k") == "IntegerLiteral":
-                    generic_min = max(generic_min, int(strip(x["c"][1])["v"]) + 1)
+    ii = prog.index(init)
+    from ..model import expand as _expand
+
+    def _const(e):
+        e = strip(e)
+        if e.get("k") == "IntegerLiteral":
+            return int(e["v"])
+        if e.get("k") == "DeclRefExpr":
+            for d in walk(init["body"]):
+                if d.get("k") == "Var" and d.get("did") == e["ref"]["did"] and isinstance(d.get("init"), dict):
+                    lit = [y for y in walk(d["init"]) if y.get("k") == "IntegerLiteral"]
+                    if lit:
+                        return int(lit[0]["v"])
+        return None
+
+    def _facts(cond, pol, out):
+        """facts that hold when `cond` has truth value `pol`: conjunctions when true, disjunctions when false, negations folded"""
+        c = strip(cond)
+        if c.get("k") == "DeclRefExpr" and "bool" in (c.get("t") or ""):
+            c = strip(_expand(init, c))
+        while c.get("k") == "ParenExpr" and c.get("c"):
+            c = strip(c["c"][0])
+        if c.get("k") == "UnaryOperator" and c.get("op") == "!":
+            return _facts(c["c"][0], not pol, out)
+        if c.get("k") == "BinaryOperator" and ((c.get("op") == "&&" and pol) or (c.get("op") == "||" and not pol)):
+            _facts(c["c"][0], pol, out)
+            _facts(c["c"][1], pol, out)
+            return
+        if c.get("k") == "BinaryOperator" and c.get("op") in ("==", "!=", "<", "<=", ">", ">="):
+            l, r = render(c["c"][0]), c["c"][1]
+            op = c["op"] if pol else {"==": "!=", "!=": "==", "<": ">=", "<=": ">", ">": "<=", ">=": "<"}[c["op"]]
+            v = _const(r)
+            if "global_type_id_" in l and v is not None and op == "==":
+                out["type"] = v
+            if "face_types_" in l and "size" in l and v is not None:
+                if op == "<":
+                    out["min"] = v
+                elif op == "<=":
+                    out["min"] = v + 1
+                elif op == "==" and v == 0:
+                    out["min"] = 1
+        if c.get("k") == "CXXMemberCallExpr" and c.get("callee", "").endswith("::empty") and "face_types_" in render(call_obj(c)) and pol:
+            out["min"] = 1
+        # a predicate over all cell types evaluated by an algorithm: any_of(empty) true / all_of(size > 0) false
+        if c.get("k") == "CallExpr" and c.get("callee") in ("std::any_of", "std::all_of", "std::none_of"):
+            for lam in walk(c):
+                if lam.get("k") == "LambdaExpr":
+                    for r_ in walk(lam["body"]):
+                        if r_.get("k") == "ReturnStmt" and isinstance(r_.get("value"), dict):
+                            inner = {}
+                            # any_of(P) true: some element satisfies P; all_of(P) false: some element violates P
+                            want = True if c["callee"] == "std::any_of" and pol else (False if c["callee"] == "std::all_of" and not pol else (True if c["callee"] == "std::none_of" and not pol else None))
+                            if want is not None:
+                                _facts(r_["value"], want, inner)
+                                if "min" in inner and "type" not in inner:
+                                    out["min_all"] = inner["min"]
+
+    for thr in [x for x in walk(init["body"]) if x.get("k") == "CXXThrowExpr"]:
+        f_ = {}
+        for cond, pol in ii.guards(thr, through_lambdas=True):
+            _facts(cond, pol, f_)
+        if "min_all" in f_:
+            generic_min = max(generic_min, f_["min_all"])
+        if "min" in f_ and "type" in f_:
+            validated[f_["type"]] = max(validated.get(f_["type"], 0), f_["min"])
+        elif "min" in f_ and "type" not in f_:
+            generic_min = max(generic_min, f_["min"])
     # class -> global type id from the initializer's switch
     tri = prog.fn("simulation_initializer::triangulate_surface")
     cls_type = {}
